@@ -37,3 +37,26 @@ class Violation(Exception):
 
 class HarnessError(Exception):
     '''Something is wrong with the machinery itself (never a verdict).'''
+
+
+_LIB = os.path.realpath(REPO) + os.sep
+
+
+def library_origin(e):
+    '''"file:function" if the exception was RAISED inside the library under test (innermost traceback frame in
+    REPO/simprocesd), else None: an exception raised in harness code (a monitor reading an attribute that no longer
+    exists, a harness bug) is a HARNESS-ERROR, never a verdict about the library.'''
+    import traceback
+    tb = traceback.extract_tb(e.__traceback__)
+    if not tb:
+        return None
+    fr = tb[-1]
+    f = os.path.realpath(fr.filename)
+    if f.startswith(_LIB) and (os.sep + 'simprocesd' + os.sep) in f:
+        return f'{os.path.basename(fr.filename)}:{fr.name}'
+    if isinstance(e, RecursionError):
+        for fr in reversed(tb):
+            f = os.path.realpath(fr.filename)
+            if f.startswith(_LIB):
+                return f'{os.path.basename(fr.filename)}:{fr.name}'
+    return None
